@@ -122,10 +122,11 @@ const (
 	wOnce
 	wWG
 	wJoin
-	wNever // blocked for ever (e.g. receive on a channel nobody in the simulation sends on)
+	wQuiesce // until the task is the only live task of its process
+	wNever   // blocked for ever (e.g. receive on a channel nobody in the simulation sends on)
 )
 
-var waitNames = [...]string{"run", "lock", "send", "recv", "once", "wgwait", "join", "never"}
+var waitNames = [...]string{"run", "lock", "send", "recv", "once", "wgwait", "join", "quiesce", "never"}
 
 type task struct {
 	id      int32
@@ -554,6 +555,8 @@ func (s *Sim) enabled(t *task) bool {
 		return s.objs[t.obj].n == 0
 	case wJoin:
 		return s.procs[t.obj].done
+	case wQuiesce:
+		return s.procs[t.proc].nlive == 1
 	case wNever:
 		return false
 	}
